@@ -230,6 +230,21 @@ class Translator:
                         continue
                     return r
             return None
+        if isinstance(st, ast.While):
+            # bounded unrolling; the loop must terminate within the bound under the stated branch policy
+            for _ in range(64):
+                if not self.truth(self.eval(st.test, env, mod, depth), st.test):
+                    break
+                r = self.exec_body(st.body, env, mod, depth)
+                if r is not None:
+                    if r[0] == "break":
+                        return None
+                    if r[0] == "continue":
+                        continue
+                    return r
+            else:
+                raise Unmodelled("while loop does not terminate within 64 iterations in the interpretation")
+            return self.exec_body(st.orelse, env, mod, depth) if st.orelse else None
         if isinstance(st, ast.Break):
             return ("break", None)
         if isinstance(st, ast.Continue):
@@ -371,7 +386,7 @@ class Translator:
                 lo = self.eval(n.slice.lower, env, mod, depth) if n.slice.lower else None
                 hi = self.eval(n.slice.upper, env, mod, depth) if n.slice.upper else None
                 st = self.eval(n.slice.step, env, mod, depth) if n.slice.step else None
-                if isinstance(obj, (list, tuple)):
+                if isinstance(obj, (list, tuple, str)):
                     return obj[_pyint(lo):_pyint(hi):_pyint(st)]
                 raise Unmodelled("slice of symbolic value")
             idx = self.eval(n.slice, env, mod, depth)
@@ -483,8 +498,10 @@ class Translator:
                 if head in mod.imports or head in NUMERIC_MODULES:
                     return Opaque(d)
         obj = self.eval(n.value, env, mod, depth)
-        if n.attr == "dtype":
+        if n.attr == "dtype" and not (isinstance(obj, SelfObj) and "dtype" in obj.attrs):
             return DType(obj)
+        if n.attr in ("shape", "dtype") and isinstance(obj, SelfObj) and n.attr in obj.attrs:
+            return obj.attrs[n.attr]
         if n.attr in ("shape",):
             if isinstance(obj, np.ndarray):
                 return tuple(sp.Integer(k) for k in obj.shape)  # the component model knows its shape
@@ -679,6 +696,10 @@ class Translator:
                 return list(obj.values())
         if isinstance(obj, SelfObj):
             return self.apply(obj.get(name, self, depth), args, kwargs, n, depth)
+        if is_sym(obj) and self.hooks.get("sym_method"):
+            r = self.hooks["sym_method"](self, obj, name, args, kwargs)
+            if r is not NotImplemented:
+                return r
         if is_sym(obj):
             if name in ("numpy", "copy"):
                 return obj
@@ -774,6 +795,8 @@ class Translator:
         if name == "hasattr":
             if args[1] == "dtype":
                 return is_sym(a0)
+            if args[1] == "__len__":
+                return isinstance(a0, (list, tuple, dict, str, np.ndarray))
             raise Unmodelled("hasattr dispatch")
         if name == "callable":
             return isinstance(a0, (Fn, BoundMethod, Closure, PyFunc))
@@ -1033,6 +1056,12 @@ class Translator:
             return r if isinstance(op, ast.Is) else not r
         if isinstance(a, (DType, Opaque)) or isinstance(b, (DType, Opaque)):
             raise Unmodelled("comparison of dtypes / opaque objects")
+        if isinstance(a, bool) or isinstance(b, bool):
+            if isinstance(op, ast.Eq):
+                return a is b if isinstance(a, bool) and isinstance(b, bool) else bool(a) == bool(b) if (isinstance(a, bool) or a in (0, 1)) and (isinstance(b, bool) or b in (0, 1)) else False
+            if isinstance(op, ast.NotEq):
+                return not self.compare(ast.Eq(), a, b)
+            raise Unmodelled("ordering of booleans")
         if isinstance(a, str) or isinstance(b, str) or a is None or b is None:
             if isinstance(op, ast.Eq):
                 return a == b
